@@ -10,7 +10,7 @@ from irsym import solver as S
 PID = 'C10'
 FUNCS = ['SQuIDS::Evolve (numerical and no-numerics branches)', 'SQuIDS::ini (re-initialisation)', 'SQuIDS::SQuIDS(SQuIDS&&)', 'SQuIDS::operator=(SQuIDS&&)', 'Set_*Terms / Set_AdaptiveStep / Set_NumSteps',
          'squids::RHS / set_system_pointers (last-pointer cache)', 'SQuIDS::Get_t / Get_t_initial', 'PreDerive dispatch']
-OPS_ = ['E', 'E0', 'T1', 'T8', 'Toff', 'ST', 'MC', 'MA', 'RI']
+OPS_ = ['E', 'E0', 'T1', 'T8', 'Toff', 'ST', 'MC', 'MA', 'RI', 'MR']     # MR: move-assign away, then re-initialise and evolve the moved-from object
 
 
 def histories(tier, seed):
@@ -19,7 +19,7 @@ def histories(tier, seed):
         for h in itertools.product(OPS_, repeat=n):
             if not any(o in ('E', 'E0') for o in h):
                 continue
-            if h.count('MC') + h.count('MA') > 2 or h.count('RI') > 1:
+            if h.count('MC') + h.count('MA') + h.count('MR') > 2 or h.count('RI') > 1:
                 continue
             base.append(list(h))
     four = [list(h) + ['E'] for h in itertools.product(OPS_, repeat=3) if sum(o in ('E', 'E0') for o in h) >= 1]
@@ -38,7 +38,7 @@ def run_history(out, solver, hist, d, nx, nrho, nsc, reuse):
     info = dict(kind='history', hist=hist, d=d, nx=nx, nrho=nrho, nsc=nsc)
     key = 'history:' + '-'.join(hist)
     nE = sum(1 for o in hist if o in ('E', 'E0')) + 1
-    scripts = [{'cb': [(0, 0), (1, 1), (2, 0)]}, {'cb': [(0, 1), (2, 1)]}, {'cb': [(0, 0), (1, 0), (1, 1)]}, {'cb': [(0, 1)]}, {'cb': [(1, 0), (0, 1)]}, {'cb': [(0, 0), (2, 1)]}] * 2
+    scripts = [{'cb': [(0, 0), (1, 1), (2, 0)]}, {'cb': [(0, 1), (2, 1)]}, {'cb': [(0, 0), (1, 0), (1, 1)]}, {'cb': [(0, 1)]}, {'cb': [(1, 0), (0, 1)]}, {'cb': [(0, 0), (2, 1)]}] * 3
     s = Session(scripts, solver=solver)
     s.st.reuse_freed = reuse
     cur = 0
@@ -159,6 +159,32 @@ def run_history(out, solver, hist, d, nx, nrho, nsc, reuse):
                 s.ok('h_sys_move_assign', [s.obj[other], obj])
                 s.ok('h_sys_destroy', [obj])
                 cur = other
+            elif op == 'MR':
+                other = 1 - cur
+                s.ok('h_sys_ctor', [s.obj[other], 1, 2, 1, 0, T.var('tj')])
+                s.ok('h_sys_move_assign', [s.obj[other], obj])
+                # the moved-from object gets a problem of its own and is evolved: its callbacks must be bound to it, its clock is its own,
+                # and the object that received the move is not touched
+                tk, dtk = T.var('tk%d' % step), T.var('dtk%d' % step)
+                s.ok('h_sys_ini', [obj, 1, 2, 1, 1, tk])
+                s.write_state(cur, 1, 2, 1, 1, prefix='r%d' % step)
+                s.ok('h_sys_switches', [obj, 1, 0])
+                s.ok('h_sys_stepping', [obj, 1, 5, 0])
+                mark = len(s.st.log)
+                r = s.call('h_sys_evolve', [obj, dtk])
+                if r.status != 'ok' or r.retval != 0:
+                    dec.candidate(key + ':moved-from-reuse', 'a moved-from solver that is re-initialised cannot be evolved (%s / %r) at %s' % (r.status, r.info or r.retval, where), **info)
+                    return s
+                lg = s.log_since(mark)
+                rh = [e for e in lg if e[0] == 'rhs']
+                if not rh or any(e[9] != obj for e in rh):
+                    dec.candidate(key + ':moved-from-reuse', 'after a move assignment the re-initialised source is integrated through callbacks bound to %s at %s' % ('no object (no integration)' if not rh else 'the object that received the move', where), **info)
+                    return s
+                if differs(s.ok('h_sys_get_t', [obj]), T.fadd(tk, dtk), 'clock of the re-initialised moved-from object') or differs(s.ok('h_sys_get_t', [s.obj[other]]), texp, 'clock of the move target is untouched'):
+                    dec.candidate(key + ':moved-from-reuse', 'evolving the re-initialised source of a move assignment changes the clock of the object that received the move (or not its own) at %s' % where, **info)
+                    return s
+                s.ok('h_sys_destroy', [obj])
+                cur = other
             elif op == 'RI':
                 cfg = (cfg[0] + 1, cfg[1], cfg[2], cfg[3])
                 ti2 = T.var('ti_re')
@@ -261,6 +287,15 @@ for step,op in enumerate(cfg['hist']):
         lib.h_sys_move_construct(P[1-cur],p); lib.h_sys_destroy(p); cur=1-cur
     elif op=='MA':
         lib.h_sys_ctor(P[1-cur],1,2,1,0,0.7); lib.h_sys_move_assign(P[1-cur],p); lib.h_sys_destroy(p); cur=1-cur
+    elif op=='MR':
+        lib.h_sys_ctor(P[1-cur],1,2,1,0,0.7); lib.h_sys_move_assign(P[1-cur],p)
+        lib.h_sys_ini(p,1,2,1,1,3.25); nxk=nx; nx=1; dk=d; nrk=nrho; nsk=nsc
+        yy=(Dd*5)(*[0.1,0.2,0.3,0.4,0.5]); lib.h_sys_write(p,1,2,1,1,yy); lib.h_sys_switches(p,1,0); lib.h_sys_stepping(p,1,50,2)
+        rc=lib.h_sys_evolve(p,0.2)
+        if rc or abs(lib.h_sys_get_t(p)-3.45)>1e-12 or abs(lib.h_sys_get_t(P[1-cur])-texp)>1e-12: problems.append('step %d (MR): re-initialised moved-from object: rc %d clock %.17g, move target clock %.17g expected %.17g'%(step,rc,lib.h_sys_get_t(p),lib.h_sys_get_t(P[1-cur]),texp)); break
+        aft=(Dd*5)(); lib.h_sys_read(p,1,2,1,1,aft)
+        if list(aft)==list(yy): problems.append('step %d (MR): the re-initialised moved-from object was not integrated'%step); break
+        lib.h_sys_destroy(p); cur=1-cur; nx=nxk
     elif op=='RI':
         nx+=1; lib.h_sys_ini(p,nx,d,nrho,nsc,1.5); fill(p,nx); texp=1.5; tini=1.5
         if lib.h_sys_get_t(p)!=1.5: problems.append('step %d: re-ini clock'%step)
